@@ -199,6 +199,10 @@ func v12Aspects() []v12Aspect {
 		func() []ndp.Option {
 			return []ndp.Option{v12DNS(v12S(10), v12S1), v12DNS(v12S(10), v12S2), v12DNS(v12Inf, v12S3)}
 		},
+		// the same address with and without a zone (the wire carries none)
+		func() []ndp.Option { return []ndp.Option{v12DNS(v12S(10), v12S3)} },
+		func() []ndp.Option { return []ndp.Option{v12DNS(v12S(10), v12S3+"%eth0")} },
+		func() []ndp.Option { return []ndp.Option{v12DNS(v12S(10), v12S3+"%wlan1", v12S1)} },
 	}
 	dnssl := []func() []ndp.Option{
 		func() []ndp.Option { return nil },
@@ -676,6 +680,38 @@ func TestVerifC12(t *testing.T) {
 		}
 		e.emit(id+"-h", 1, built, image, self, o, append([]string{"order:handle-image"}, tags...))
 	}
+
+	v12CodecUnstable(t, out)
+}
+
+// v12CodecUnstable records (without a verdict: domain names are opaque tokens in the model) what
+// happens when the ndp codec rewrites a configured DNSSL domain name -- punycode is decoded to
+// Unicode, a trailing dot is dropped -- so that the own RA differs from its own wire image.
+func v12CodecUnstable(t *testing.T, out *verifh.Out) {
+	for k, name := range []string{"xn--bcher-kva.example", "example.com."} {
+		id := fmt.Sprintf("c12-codec-%d", k)
+		if !out.Wants(id) {
+			continue
+		}
+		toml := fmt.Sprintf("[[interfaces]]\nname = \"eth3\"\nadvertise = true\n  [[interfaces.dnssl]]\n  domain_names = [%q]\n", name)
+		cfg, err := config.Parse(strings.NewReader(toml), time.Unix(1700000000, 0))
+		if err != nil {
+			continue // rejected by the parser: nothing to observe
+		}
+		ours, _, err := cfg.Interfaces[0].RouterAdvertisement(true)
+		if err != nil {
+			continue
+		}
+		image, err := v12WireRA(ours)
+		if err != nil {
+			continue
+		}
+		o := v12Direct(ours, image)
+		out.Emit(verifh.Case{ID: id, Tags: []string{"stream:codec-unstable-name", fmt.Sprintf("candidate-reported:%d", len(o.reported))},
+			Desc:     "own RA vs its own wire image for a DNSSL name the codec rewrites (recorded, not judged; see report)",
+			Input:    map[string]any{"config": toml, "ours": v12Summary(ours), "theirs_decoded": v12Summary(image)},
+			Observed: map[string]any{"reported": o.reported}})
+	}
 }
 
 // v12Config generates an accepted interface configuration whose durations are mostly not whole
@@ -683,8 +719,9 @@ func TestVerifC12(t *testing.T) {
 func v12Config(r *verifh.Rand) (string, []string) {
 	var sb strings.Builder
 	sub := false
+	whole := r.Chance(20) // a configuration in whole wire units only
 	frac := func(unit time.Duration) time.Duration {
-		if r.Chance(35) {
+		if whole || r.Chance(35) {
 			return 0
 		}
 		sub = true
@@ -731,7 +768,11 @@ func v12Config(r *verifh.Rand) (string, []string) {
 		}
 	}
 	for k := r.Intn(3); k > 0; k-- {
-		fmt.Fprintf(&sb, "  [[interfaces.rdnss]]\n  servers = [\"2001:db8::%d\", \"2001:db8::1:%d\"]\n", 50+k, k)
+		zone := ""
+		if r.Chance(30) {
+			zone = "%eth3"
+		}
+		fmt.Fprintf(&sb, "  [[interfaces.rdnss]]\n  servers = [\"2001:db8::%d\", \"fe80::1:%d%s\"]\n", 50+k, k, zone)
 		if r.Chance(70) {
 			fmt.Fprintf(&sb, "  lifetime = \"%s\"\n", secs(1, 100000))
 		} else {
